@@ -660,7 +660,7 @@ static std::string apply_random_token_fault_xml_unchecked(const std::string& x, 
 const char* model_fault_name(int f)
 {
     static const char* n[] = {"dup-location-name", "drop-argument",  "extra-argument",   "unknown-template", "dup-template-name", "system-no-semicolon",
-                              "dup-process",       "dup-declaration", "dup-parameter",   "foreign-target",   "init-is-branchpoint", "unknown-process", "empty-template"};
+                              "dup-process",       "dup-declaration", "dup-parameter",   "foreign-target",   "init-is-branchpoint", "unknown-process", "empty-template", "bad-dynamic-declaration"};
     return f >= 0 && f < MF_COUNT ? n[f] : "?";
 }
 
@@ -770,6 +770,15 @@ bool apply_model_fault(Model& m, int fault, Rng& rng)
         if (!o)
             return false;
         t->edges[rng.below((uint32_t)t->edges.size())].dst_id_override = o->locs[rng.below((uint32_t)o->locs.size())].id;
+        return true;
+    }
+    case MF_BAD_DYNAMIC_DECL: {
+        MDecl d;
+        d.kind = MDecl::OTHER;
+        d.name = "DX";
+        d.text = rng.chance(0.5) ? "dynamic DX(clock &zr);" : "dynamic DX(int &zr, const int zk);";
+        // among the global declarations, so that declarations with parameter lists (functions, templates) follow it
+        m.gdecls.insert(m.gdecls.begin() + rng.below((uint32_t)m.gdecls.size() + 1), d);
         return true;
     }
     case MF_EMPTY_TEMPLATE: {
